@@ -260,10 +260,13 @@ def main(ctx):
 
     scpdefs = dict(SNames=PS(SCP_NAMES), Backslash=PS(['a\\b']),
                    Entries='{}')
-    nrec = 3 if quick else 4
     jobs['scp sink (exhaustive + table)'] = lambda: run_mc(
-        'PathConfineDL', 'scp', dl_consts('scp', True, nrec), scpdefs,
+        'PathConfineDL', 'scp', dl_consts('scp', True, 3), scpdefs,
         ['AllCreatedUnderDest', 'EmitAll'], workers=1, timeout=800)
+    if not quick:
+        jobs['scp sink, 4 records'] = lambda: run_mc(
+            'PathConfineDL', 'scp4', dl_consts('scp', True, 4), scpdefs,
+            ['AllCreatedUnderDest'], workers=W, timeout=800)
     jobs['scp sink without name check'] = lambda: run_mc(
         'PathConfineDL', 'scp_nochk', dl_consts('scp', False, 3), scpdefs,
         ['AllCreatedUnderDest'], workers=2)
@@ -276,7 +279,8 @@ def main(ctx):
     nent = 2 if quick else 3
     gd = ('dir', 'none')
     jobs['get (table)'] = lambda: run_mc(
-        'PathConfineDL', 'get_t', dl_consts('get', variant['get_filter'], 2, gd),
+        'PathConfineDL', 'get_t',
+        dl_consts('get', variant['get_filter'], 2 if quick else 3, gd),
         getdefs(get_entries(True)), ['EmitAll'], workers=1)
     jobs['get as written'] = lambda: run_mc(
         'PathConfineDL', 'get_asis', dl_consts('get', False, 2, gd),
@@ -467,6 +471,9 @@ def wire_sweep(ctx, pc, world, table, esc, paths, n1, n2, extra_ops):
                 pred = False
             elif op == 'symlink':
                 pred = outside(q)   # the target is stored, not touched
+            elif op == 'rename':
+                # os.path.exists(new) comes first and may end the request
+                pred = outside(q)
             elif op in ops2:
                 pred = outside(p) or outside(q)
             else:
@@ -482,9 +489,13 @@ def wire_sweep(ctx, pc, world, table, esc, paths, n1, n2, extra_ops):
         for op in ops1:
             for p in sweep:
                 one(op, p)
+        small = [p for p in paths if p.count('/') < min(n2, 2)]
         for op in ops2:
             for p in pairs:
-                for q in pairs:
+                for q in (pairs if len(pairs) <= 30 else small):
+                    one(op, p, q)
+            for p in small:
+                for q in (pairs if len(pairs) > 30 else []):
                     one(op, p, q)
         out = pc.outside_changes(world.tree(), ('T', 'R'))
         if out:
@@ -494,7 +505,8 @@ def wire_sweep(ctx, pc, world, table, esc, paths, n1, n2, extra_ops):
                           replay={'kind': 'note'})
         ctx.sample({'part': 'wire sweep', 'sftp_version': world.sftp_version,
                     'requests': nreq, 'ops': ops1 + ops2, 'paths': len(sweep),
-                    'path_pairs': len(pairs) ** 2})
+                    'path_pairs': len(pairs) * len(small) * 2 if len(pairs) > 30
+                    else len(pairs) ** 2})
         return nreq
 
 
@@ -586,7 +598,7 @@ def replay_fs(ctx, pc, results, rule, quick):
         by_setup = {}
         for h in hists:
             by_setup.setdefault(json.dumps(h[:-1]), []).append(h)
-        limit = 3 if quick else 1000
+        limit = 3 if quick else 10
         for _setup, group in by_setup.items():
             for k, h in enumerate(group[:limit]):
                 reqs = [conv_req(x) for x in h]
@@ -687,7 +699,7 @@ def note_escapes(pc, world, found, cache, init, reqs, r, prio=1):
                 small = canon_names(small)
             cache[ck] = small
         small = cache[ck]
-        setup = tuple(([f'init {sorted("/".join(k) for k in init)}']
+        setup = tuple(([f'init {sorted(("/".join(k), v) for k, v in init.items())}']
                        if init else []) + [pc.req_str(x) for x in small[:-1]])
         old = found.get((kind, setup))
         if old is None or old[2] > prio:
@@ -746,12 +758,23 @@ def replay_dl(ctx, pc, results, quick):
     cache = {}
     n = 0
     try:
+        # fixed regression inputs (re-established findings, stable signatures)
+        for hist in DL_REGRESSIONS:
+            ents = [conv_ent(e, top) for e in hist]
+            r = world.run_get(ents, 'dir', True)
+            n += 1
+            ctx.count(('get-regression', tuple(ent_str(e) for e in ents)))
+            if r['escapes'] or r['outside']:
+                note_dl(pc, world, found, cache, 'get',
+                        {'dest': 'dir', 'cont': True}, hist, r, top, prio=0)
         for name, mode, cap in (('scp sink (exhaustive + table)', 'scp', 450),
                                 ('get (table)', 'get', 450)):
             cases = [c[0] for c in printed_blocks(results[name], 'CASE')]
             ctx.require(len(cases) > 50, f'{name}: no case table')
             cases.sort(key=lambda c: json.dumps(c, sort_keys=True))
-            if quick and len(cases) > cap:
+            if not quick:
+                cap = 7000 if mode == 'scp' else 4000
+            if len(cases) > cap:
                 short = [c for c in cases if len(c[2]) <= 1]
                 rest = [c for c in cases if len(c[2]) > 1]
                 cases = short + rest[::len(rest) // cap + 1]
@@ -796,15 +819,6 @@ def replay_dl(ctx, pc, results, quick):
                     if a != b:
                         ctx.divergence(f'{mode} {cfg} {desc}: tree observed='
                                        f'{a} predicted={b} exc={r["exc"]}')
-        # fixed regression inputs (re-established findings, stable signatures)
-        for hist in DL_REGRESSIONS:
-            ents = [conv_ent(e, top) for e in hist]
-            r = world.run_get(ents, 'dir', True)
-            n += 1
-            ctx.count(('get-regression', tuple(ent_str(e) for e in ents)))
-            if r['escapes'] or r['outside']:
-                note_dl(pc, world, found, cache, 'get',
-                        {'dest': 'dir', 'cont': True}, hist, r, top, prio=0)
         # fixed cases: attribute preservation through a planted link
         for hist in PRESERVE_CASES:
             ents = [conv_ent(e, top) for e in hist]
@@ -824,13 +838,13 @@ def replay_dl(ctx, pc, results, quick):
             ctx.notes.append(f'{kind}: {len(lst)} distinct minimal inputs: ' +
                              ' | '.join('; '.join(x[0]) for x in lst[:12]))
             nprio = sum(1 for x in lst if x[1][1] == 0)
-            for inp, (ex, _prio) in lst[:max(3, nprio)]:
+            for inp, (ex, _prio, raw) in lst[:max(3, nprio)]:
                 ctx.violation(
                     {'module': 'PathConfine', 'kind': kind, 'input': list(inp)},
                     f'download wrote outside the destination ({kind}): remote '
                     f'side sent {list(inp)}; local effect {ex}; {len(lst)} '
                     f'distinct minimal inputs of this kind',
-                    replay={'kind': 'download', 'input': list(inp)})
+                    replay=dict(raw, kind='download'))
     finally:
         world.close()
 
@@ -917,36 +931,82 @@ def note_dl(pc, world, found, cache, mode, cfg, hist, r, top, preserve=False,
     rr = run(seq)
     ex = [e.as_list() for e in rr['escapes'][:2]] or rr['outside']
     ex = json.loads(json.dumps(ex).replace(top, '/T'))
-    found[(kind, inp)] = (ex, prio)
+    found[(kind, inp)] = (ex, prio, dict(mode=mode, cfg=cfg, hist=seq,
+                                         preserve=preserve))
 
 
 # --------------------------------------------------------------------------
 def replay_saved(ctx, pc):
+    """./check C13 --replay <file>: re-run one saved violation."""
+    import ast
     with open(ctx.replay_path) as f:
         data = json.load(f)
     rp = data.get('replay') or {}
     print('replaying', json.dumps(data['signature']))
+    again = False
     if rp.get('kind') == 'server-seq':
         world = pc.ServerWorld()
         try:
             reqs = []
+            init = {}
             for s in rp['requests']:
                 if s.startswith('init '):
+                    for x, kind in ast.literal_eval(s[5:]):
+                        init[tuple(x.split('/'))] = kind
                     continue
-                parts = s.split(' ')
-                args = [eval(x).encode() for x in parts[1:]]    # repr'd strings
-                reqs.append((parts[0], args[0],
-                             args[1] if len(args) > 1 else b''))
-            r = pc.run_sequence(world, {}, reqs)
+                op, rest = s.split(' ', 1)
+                args = [a.encode() for a in
+                        ast.literal_eval('[' + rest.replace("' '", "', '") + ']')]
+                reqs.append((op, args[0], args[1] if len(args) > 1 else b''))
+            r = pc.run_sequence(world, init, reqs)
             for s in r['steps']:
                 print('  ', s)
-            if r['escapes']:
-                ctx.violation(data['signature'], data['what'], replay=rp)
+            print('   escapes:', r['escapes'])
+            again = bool(r['escapes'])
+        finally:
+            world.close()
+    elif rp.get('kind') == 'download':
+        world = pc.DownloadWorld()
+        try:
+            cfg = rp['cfg']
+            if rp['mode'] == 'scp':
+                r = world.run_scp(scp_script(rp['hist']), cfg['dest'],
+                                  cfg['cont'], False)
+            else:
+                r = world.run_get([conv_ent(e, world.area.top)
+                                   for e in rp['hist']], cfg['dest'],
+                                  cfg['cont'], preserve=rp.get('preserve', False))
+            print('   exception:', r['exc'])
+            print('   escapes:', [e.as_list() for e in r['escapes']],
+                  r['outside'])
+            again = bool(r['escapes'] or r['outside'])
+        finally:
+            world.close()
+    elif rp.get('kind') == 'map':
+        world = pc.ServerWorld()
+        try:
+            for p, where, _detail in rp['examples']:
+                if where == 'map_path':
+                    m = pc.real_map_path(world.area.root, [p.encode()])[0]
+                    loc, _e = pc.kwalk(m.decode(), True)
+                    bad = not pc.under(world.area.root, loc)
+                    print(f'   map_path({p!r}) = {m!r}  outside={bad}')
+                else:
+                    args = p.split(' ') + ['']
+                    _st, _d, ev = world.request(where, args[0].encode(),
+                                                args[1].encode())
+                    bad = bool(world.judge(ev))
+                    print(f'   {where} {p!r}: touched '
+                          f'{[e.as_list() for e in world.judge(ev)]}')
+                again = again or bad
         finally:
             world.close()
     else:
-        print('  (replay of this kind: run ./check C13 quick; the case is '
-              'part of the fixed enumeration)')
+        print('  (no replay recipe stored for this entry)')
+    if again:
+        ctx.violation(data['signature'], data['what'], replay=rp)
+    else:
+        print('   not reproduced on this tree')
 
 
 if __name__ == '__main__':
